@@ -29,15 +29,15 @@ from transval import hx, unhx
 
 SPEC = {
     "prop": "C02",
-    "lean_targets": ["InfernoVerif.Props.C02", "InfernoVerif.Props.C02Glue", "InfernoVerif.Lemmas.SelectQ", "InfernoVerif.Model.Select",
+    "lean_targets": ["InfernoVerif.Props.C02", "InfernoVerif.Props.C02Glue", "InfernoVerif.Props.C02GlueProg", "InfernoVerif.Lemmas.SelectQ", "InfernoVerif.Model.Select",
                      "InfernoVerif.Model.SelectQ", "InfernoVerif.Gen.InterpolationF",
                      "InfernoVerif.Gen.ExtrapolationF", "InfernoVerif.Gen.Dispatch"],
-    "prop_files": ["InfernoVerif/Props/C02.lean", "InfernoVerif/Props/C02Glue.lean"],
+    "prop_files": ["InfernoVerif/Props/C02.lean", "InfernoVerif/Props/C02Glue.lean", "InfernoVerif/Props/C02GlueProg.lean"],
     "lemma_files": ["InfernoVerif/Lemmas/Select.lean", "InfernoVerif/Lemmas/SelectQ.lean", "InfernoVerif/Lemmas/SelectCast.lean"],
     "model_files": ["InfernoVerif/Model/Select.lean", "InfernoVerif/Model/SelectQ.lean",
                     "InfernoVerif/Gen/InterpolationR.lean", "InfernoVerif/Gen/ExtrapolationR.lean",
                     "InfernoVerif/Gen/InterpolationF.lean", "InfernoVerif/Gen/ExtrapolationF.lean"],
-    "translate": ["Interpolation", "Extrapolation", "SelectSites"],
+    "translate": ["Interpolation", "Extrapolation", "SelectSites", "RingProg", "SelectProg"],
     "driver_targets": ["InfernoVerif.Model.Select", "InfernoVerif.Model.SelectQ",
                        "InfernoVerif.Gen.InterpolationF", "InfernoVerif.Gen.ExtrapolationF",
                        "InfernoVerif.Gen.Dispatch"],
